@@ -342,14 +342,10 @@ void do_printf_ints(S &sink, char t, format_options opts,
 			FRG_ASSERT(szmod == printf_size_mod::default_size);
 			number = pop_arg<int>(vsp, &opts);
 		}
-		if(opts.precision && *opts.precision == 0 && !number) {
-			// print nothing in this case
-		}else{
-			_fmt_basics::print_int(sink, number, 10, opts.minimum_width,
-					opts.precision ? *opts.precision : 1, zero_fill ? '0' : ' ',
-					opts.left_justify, opts.group_thousands, opts.always_sign,
-					opts.plus_becomes_space, false, locale_opts);
-		}
+		_fmt_basics::print_int(sink, number, 10, opts.minimum_width,
+				opts.precision ? *opts.precision : 1, zero_fill ? '0' : ' ',
+				opts.left_justify, opts.group_thousands, opts.always_sign,
+				opts.plus_becomes_space, false, locale_opts);
 	} break;
 	case 'b':
 	case 'B' : {
@@ -358,14 +354,10 @@ void do_printf_ints(S &sink, char t, format_options opts,
 			if (number && opts.alt_conversion)
 				prefix = t == 'b' ? "0b" : "0B";
 
-			if(opts.precision && *opts.precision == 0 && !number) {
-				// print nothing in this case
-			}else{
-				_fmt_basics::print_int(sink, number, 2, opts.minimum_width,
-						opts.precision ? *opts.precision : 1, zero_fill ? '0' : ' ',
-						opts.left_justify, false, false, false,
-						false, locale_opts, prefix);
-			}
+			_fmt_basics::print_int(sink, number, 2, opts.minimum_width,
+					opts.precision ? *opts.precision : 1, zero_fill ? '0' : ' ',
+					opts.left_justify, false, false, false,
+					false, locale_opts, prefix);
 		};
 
 		if(szmod == printf_size_mod::char_size) {
@@ -394,18 +386,14 @@ void do_printf_ints(S &sink, char t, format_options opts,
 				int num_digits = 0;
 				for (auto n = number; n; n /= 8)
 					num_digits++;
-				if (number && precision <= num_digits)
+				if (precision <= num_digits)
 					precision = num_digits + 1;
 			}
 
-			if(opts.precision && *opts.precision == 0 && !number) {
-				// print nothing in this case
-			}else{
-				_fmt_basics::print_int(sink, number, 8, opts.minimum_width,
-						precision, zero_fill ? '0' : ' ',
-						opts.left_justify, false, false, false,
-						false, locale_opts);
-			}
+			_fmt_basics::print_int(sink, number, 8, opts.minimum_width,
+					precision, zero_fill ? '0' : ' ',
+					opts.left_justify, false, false, false,
+					false, locale_opts);
 		};
 
 		if(szmod == printf_size_mod::char_size) {
@@ -432,14 +420,10 @@ void do_printf_ints(S &sink, char t, format_options opts,
 			if (number && opts.alt_conversion)
 				prefix = t == 'x' ? "0x" : "0X";
 
-			if(opts.precision && *opts.precision == 0 && !number) {
-				// print nothing in this case
-			}else{
-				_fmt_basics::print_int(sink, number, 16, opts.minimum_width,
-						opts.precision ? *opts.precision : 1, zero_fill ? '0' : ' ',
-						opts.left_justify, false, false, false,
-						t == 'X', locale_opts, prefix);
-			}
+			_fmt_basics::print_int(sink, number, 16, opts.minimum_width,
+					opts.precision ? *opts.precision : 1, zero_fill ? '0' : ' ',
+					opts.left_justify, false, false, false,
+					t == 'X', locale_opts, prefix);
 		};
 
 		if(szmod == printf_size_mod::char_size) {
@@ -462,14 +446,10 @@ void do_printf_ints(S &sink, char t, format_options opts,
 	case 'u': {
 		auto print = [&] (auto number) {
 			FRG_ASSERT(!opts.alt_conversion);
-			if(opts.precision && *opts.precision == 0 && !number) {
-				// print nothing in this case
-			}else{
-				_fmt_basics::print_int(sink, number, 10, opts.minimum_width,
-						opts.precision ? *opts.precision : 1, zero_fill ? '0' : ' ',
-						opts.left_justify, opts.group_thousands, false,
-						false, false, locale_opts);
-			}
+			_fmt_basics::print_int(sink, number, 10, opts.minimum_width,
+					opts.precision ? *opts.precision : 1, zero_fill ? '0' : ' ',
+					opts.left_justify, opts.group_thousands, false,
+					false, false, locale_opts);
 		};
 
 		if(szmod == printf_size_mod::char_size) {
